@@ -1,6 +1,9 @@
 //! C18 driver: executes writer-lock lifecycles (printed by spec/Gen_WriterLock.tla) on the real
 //! tantivy code, for three directory kinds, and records what happened.  Nothing is judged here.
 //!   lock_driver run --in cases.ndjson --out trace.ndjson [--dirs sim,ram,mmap] [--no-probe]
+//! Invalid options (`bad`): budget (too small, through writer_with_num_threads), toobig, threads0
+//! (writer_with_options), threads0n (zero threads through writer_with_num_threads).
+//! `failroll` = rollback with one injected read fault (SimDir only; `skip` elsewhere).
 //! A case: {"id":7,"ops":[{"op":"race","hs":["A","B"],"bad":["none","budget"],"spawn":true},
 //!                        {"op":"rollback","w":1,"contend":true},{"op":"kill","w":1,"how":"schema"},
 //!                        {"op":"drop","w":1},{"op":"wait","w":1},{"op":"failroll","w":1}]}
